@@ -85,12 +85,22 @@ def gen_scenario(rng):
         # connection 1 has been executed -- a second worker must be woken for it
         adj["threads"] = rng.choice([2, 3])
         conns[0]["requests"][0]["gate"] = "peer"
+    scn_faults = None
+    if rng.random() < 0.12:
+        # one send() on the first connection fails with an errno that is not a plain disconnect: that
+        # connection is given up -- every other one (and the workers) must carry on
+        import errno
+
+        scn_faults = {"0:send:%d" % rng.randrange(0, 10): rng.choice([errno.ETIMEDOUT, errno.EHOSTUNREACH, errno.ENOBUFS])}
     if any(r["k"] == "stream" for c in conns for r in c["requests"]):
         # an application that waits for its own output to be delivered only makes
         # sense without send_bytes batching (output below send_bytes is held back
         # on purpose while the task runs)
         adj["send_bytes"] = 1
-    return {"adj": adj, "sndbuf": sndbuf, "conns": conns}
+    scn = {"adj": adj, "sndbuf": sndbuf, "conns": conns}
+    if scn_faults:
+        scn["faults"] = scn_faults
+    return scn
 
 
 def directed(poll):
